@@ -248,20 +248,23 @@ type condInfo struct {
 }
 
 type Machine struct {
-	P         *Prog
-	Model     Model
-	MaxDepth  int
-	MaxStates int
-	Inline    func(callee *ssa.Function) bool
-	visited   map[string]int
-	OnVisit   func(st *State, b *ssa.BasicBlock) int // first visit of an abstract state at a block entry: returns a node id
-	OnRevisit func(st *State, node int)              // the state was seen before (at node)
-	States    int
-	Paths     int
-	Aborted   string
-	conds     map[string]condInfo
-	work      []*State
-	Silent    []string // descriptions of event-free cycles (filled by models that care)
+	P     *Prog
+	Model Model
+	// ForkTables: a lookup in a constant table with a key known only by name is explored once per entry (the scanner's and
+	// the parser's dispatch tables); off for models that iterate over data (a transliteration loop would multiply)
+	ForkTables bool
+	MaxDepth   int
+	MaxStates  int
+	Inline     func(callee *ssa.Function) bool
+	visited    map[string]int
+	OnVisit    func(st *State, b *ssa.BasicBlock) int // first visit of an abstract state at a block entry: returns a node id
+	OnRevisit  func(st *State, node int)              // the state was seen before (at node)
+	States     int
+	Paths      int
+	Aborted    string
+	conds      map[string]condInfo
+	work       []*State
+	Silent     []string // descriptions of event-free cycles (filled by models that care)
 }
 
 func NewMachine(p *Prog, model Model) *Machine {
@@ -838,6 +841,55 @@ func (m *Machine) step(st *State, fr *Frame, in ssa.Instruction) {
 	case *ssa.Lookup:
 		base, idx := ev(x.X), m.resolve(st, ev(x.Index))
 		// a package-level table that nothing writes after its initialiser: the lookup of a known key is evaluated
+		if u, ok := x.X.(*ssa.UnOp); ok && idx.K == KSym && !idx.Neg && m.ForkTables {
+			// the key is a value the path knows by name only (the rune just consumed, say): one path per entry of the
+			// table, on which the key *is* that entry's key, and one on which it is none of them
+			if g, ok := u.X.(*ssa.Global); ok {
+				if tab := m.P.ConstMapKeys(g); tab != nil && len(tab) <= 64 {
+					consistent := func(k AV) bool {
+						if v, ok := st.Facts["v:"+idx.S]; ok {
+							return v.String() == k.String()
+						}
+						if ne, ok := st.Facts["ne:"+idx.S]; ok && strings.Contains(ne.S+"|", "|"+k.String()+"|") {
+							return false
+						}
+						return true
+					}
+					for _, ent := range tab {
+						if !consistent(ent.K) {
+							continue
+						}
+						ns := st.Clone()
+						ns.Facts["v:"+idx.S] = ent.K
+						res := ent.V
+						if x.CommaOk {
+							res = AV{K: KTuple, T: []AV{ent.V, BoolV(true)}}
+						}
+						ns.Top().Vals[x] = res
+						m.Model.Instr(m, ns, x, []AV{base, ent.K, idx})
+						m.fork(ns)
+					}
+					// none of the keys
+					prev := st.Facts["ne:"+idx.S]
+					acc := prev.S
+					for _, ent := range tab {
+						acc += "|" + ent.K.String()
+					}
+					st.Facts["ne:"+idx.S] = StrV(acc)
+					zv := zeroAV(x.Type())
+					if tup, ok := x.Type().(*types.Tuple); ok {
+						zv = zeroAV(tup.At(0).Type())
+					}
+					if x.CommaOk {
+						set(x, AV{K: KTuple, T: []AV{zv, BoolV(false)}})
+					} else {
+						set(x, zv)
+					}
+					m.Model.Instr(m, st, x, []AV{base, idx})
+					return
+				}
+			}
+		}
 		if u, ok := x.X.(*ssa.UnOp); ok && (idx.K == KInt || idx.K == KStr) {
 			if g, ok := u.X.(*ssa.Global); ok {
 				if tab := m.P.ConstMap(g); tab != nil {
@@ -1018,6 +1070,21 @@ func (m *Machine) binop(st *State, x *ssa.BinOp, a, b AV) AV {
 			return BoolV(a.B == b.B)
 		case token.NEQ:
 			return BoolV(a.B != b.B)
+		}
+	}
+	// comparing a symbolic boolean with a constant one is the boolean itself or its negation: (x == true) ≡ x,
+	// (x != true) ≡ !x, (x == false) ≡ !x, (x != false) ≡ x
+	if (op == token.EQL || op == token.NEQ) && ((a.K == KSym && b.K == KBool) || (a.K == KBool && b.K == KSym)) {
+		sym, k := a, b
+		if a.K == KBool {
+			sym, k = b, a
+		}
+		if bt, ok := x.X.Type().Underlying().(*types.Basic); ok && bt.Info()&types.IsBoolean != 0 {
+			same := (op == token.EQL) == k.B
+			if !same {
+				sym.Neg = !sym.Neg
+			}
+			return sym
 		}
 	}
 	if a.K == KStr && b.K == KStr {
